@@ -110,6 +110,7 @@ def run(chk):
     from . import shared
     shared.response_reads(chk, prog, "R1.exact_reads")
     shared.header_line_split(chk, prog, "R1.header_split", "humphrey::http::response::Response::from_stream")
+    shared.no_blind_consume(chk, prog, "R1.no_blind_consume", r"^humphrey::http::(response|request|proxy)::")
     # "the upstream receives the request unchanged": same-named header fields keep their order in the relayed request
     shared.header_order(chk, prog, "R1.header_order")
     # a chunked upstream body is decoded whichever case the upstream writes its chunk sizes in
